@@ -360,10 +360,10 @@ func c16Run(c *mon.Ctx, unit int) {
 			s = &model.Schema{Root: gen.Shape(r, gen.ShapeOpts{MaxDepth: r.Range(1, 4), MaxWidth: 4, OddKeys: r.Chance(1, 4)})}
 			s.Root.Walk(func(n *model.Node) {
 				if n.Note == "" && (len(n.Rules) > 0 || n.IsScalar() || (n.Kind == model.KArray && len(n.Items) == 0) || (n.Kind == model.KObject && len(n.Props) == 0)) && r.Chance(1, 3) {
-					n.Note = mon.Pick(r, []string{"first", "the id", "x y z", "note 2"})
+					n.Note = mon.Pick(r, []string{"first", "the id", "x y z", "note 2", "width * height", "*required*", "a/b * c / d", "2 ** 8"})
 				}
 			})
-			st, legal = model.Style{}, true
+			st, legal = mon.Pick(r, []model.Style{{}, {}, {MultiLine: 1}, {MultiLine: 3}, {MultiLine: 2, NL: "\r\n"}}), true
 		}
 		sp := specOf(s, st)
 		got, o := c16Observe(sp)
